@@ -74,6 +74,42 @@ def explore(ctx):
                     ctx.violation('loading from a {} gives {} but from a str {}'.format(kind, str(o)[:120], str(base)[:120]),
                                   dict(L.describe(c), key='source:' + kind, text=text))
                     break
+        # ---- sources, documents that pass recognition and then fail in PyYAML's own constructors ----
+        import datetime
+        from typing import Any, Dict, List
+        fixed_loads = [(Any, yatiml.load_function(Any)), (int, yatiml.load_function(int)),
+                       (datetime.date, yatiml.load_function(datetime.date)),
+                       (Dict[str, Any], yatiml.load_function(Dict[str, Any])),
+                       (List[datetime.date], yatiml.load_function(List[datetime.date]))]
+        fixed_texts = ['!!int x', '2001-13-45', '2001-02-30', '{a: !!int ""}', '!!float abc', '[!!bool maybe]',
+                       '!!binary "@@@"', '!!timestamp nope', '[2001-02-30, 2001-01-01]', '{a: 2001-13-45}',
+                       '!!int 0x_', '[2001-01-01, 2001-00-10]', '{a: [!!null x, !!int +]}', '12', '2001-01-01',
+                       '[2001-01-01]', '{a: 1}', '!!set {a, b}', '!!omap [a: 1]', '!!int "1"  # é']
+        for ty, load in fixed_loads:
+            for text in fixed_texts:
+                def oc(fn):
+                    try:
+                        return ('ok', repr(fn()))
+                    except Exception as e:  # noqa
+                        return ('exc', type(e).__name__)
+                base = oc(lambda: load(text))
+                p = pathlib.Path(tmp) / 'doc2.yaml'
+                p.write_text(text, encoding='utf-8')
+                outs = {'Path': oc(lambda: load(p))}
+                with open(str(p), 'r', encoding='utf-8') as f:
+                    outs['text stream'] = oc(lambda: load(f))
+                with open(str(p), 'rb') as f:
+                    outs['binary stream'] = oc(lambda: load(f))
+                outs['StringIO'] = oc(lambda: load(io.StringIO(text)))
+                outs['BytesIO'] = oc(lambda: load(io.BytesIO(text.encode('utf-8'))))
+                ctx.case(('load-fixed', text, repr(ty)), nontrivial=True)
+                ctx.count('load_cases_constructor_failures')
+                for kind, o in outs.items():
+                    if o != base:
+                        ctx.violation('loading {!r} as {} from a {} gives {} but from a str {}'.format(
+                            text, getattr(ty, '__name__', ty), kind, str(o)[:120], str(base)[:120]),
+                            dict(key='source-fixed:' + kind, text=text, doc_type=repr(ty)))
+                        break
         # ---- sinks ----
         made = 0
         attempts = 0
